@@ -1,3 +1,3 @@
 SPECIFICATION Spec
-INVARIANTS SwitchesIndependent EmitCase
+INVARIANTS SwitchesIndependent PinsPreserved EmitCase
 CHECK_DEADLOCK FALSE
